@@ -27,6 +27,19 @@ RULES = {
 for _n in (1, 2, 3, 4):
     RULES["path%d" % _n] = _HEAD + (_HOSTS % b"+") + (b"(p:[^\\|]+\\|){%d})" % _n)
 
+_DFLT_CALLS = [0]
+
+
+def default_rule(name, first=False):
+    """the default creation rule handed to the constructor / to `clear`: a rule that never fires is written `(?!)` or, every
+    other time, as the empty pattern (whose empty match the code treats as "no prefix found": the same rule to a caller)"""
+    if name == "never":
+        _DFLT_CALLS[0] += 1
+        if _DFLT_CALLS[0] % 2 == (1 if first else 0):
+            return b""
+    return RULES[name]
+
+
 OP_TIMEOUT = float(os.environ.get("VERIF_OP_TIMEOUT", "10"))
 BYSTANDER = os.environ.get("VERIF_BYSTANDER", "1") == "1"
 
@@ -87,13 +100,88 @@ import traph.traph as _traph_module
 _orig_mclear = MemoryStorage.clear
 
 
+# The physical write log: what reaches the two file objects, in the order it reaches them (C18's crash points are
+# cuts of *this* order; on the unchanged tree it is the order of the `storage.write` calls, which extra_C18 checks
+# before it trusts the logical log).  Entries (file 0 = trie / 1 = links, absolute offset, bytes); offset -1 = truncation.
+PHYS_LOG = []
+PHYS_ACTIVE = [False]
+FAULT = [None]          # [file, appends still to let through]: the next append after that to this file fails half-way (C14)
+import io as _io
+
+
+class LoggedFile(_io.BufferedRandom):
+    def __init__(self, path, mode, which):
+        super(LoggedFile, self).__init__(_io.FileIO(path, mode.replace("b", "")))
+        self._which = which
+
+    def write(self, data):
+        if FAULT[0] is not None and FAULT[0][0] == self._which:
+            pos = self.tell()
+            self.flush()
+            if pos >= os.fstat(self.fileno()).st_size:          # an append: the device fills up half-way through it
+                FAULT[0][1] -= 1
+                if FAULT[0][1] < 0:
+                    FAULT[0] = None
+                    super(LoggedFile, self).write(bytes(data)[:max(1, len(data) // 2)])
+                    self.flush()
+                    raise OSError(28, "No space left on device")
+        if PHYS_ACTIVE[0]:
+            PHYS_LOG.append((self._which, self.tell(), bytes(data)))
+        return super(LoggedFile, self).write(data)
+
+    def truncate(self, pos=None):
+        if PHYS_ACTIVE[0]:
+            PHYS_LOG.append((self._which, -2, (self.tell() if pos is None else pos).to_bytes(8, "little")))
+        return super(LoggedFile, self).truncate(pos)
+
+
+def absolutize(log):
+    """the logical log in the physical log's terms"""
+    size, res = [0, 0], []
+    for kind, off, data in log:
+        if kind in (4, 5):
+            size[kind - 4] = 0
+            res.append((kind - 4, -1, b""))
+            continue
+        f = 0 if kind in (0, 1) else 1
+        pos = size[f] if kind in (1, 3) else off
+        size[f] = max(size[f], pos + len(data))
+        res.append((f, pos, data))
+    return res
+
+
+def phys_cut_files(log, k, j):
+    bufs = [bytearray(), bytearray()]
+    def put(f, pos, data):
+        if pos == -1:
+            del bufs[f][:]
+        elif pos == -2:
+            n = int.from_bytes(data, "little")
+            del bufs[f][n:]
+            bufs[f].extend(b"\0" * (n - len(bufs[f])))
+        else:
+            if pos > len(bufs[f]):
+                bufs[f].extend(b"\0" * (pos - len(bufs[f])))
+            bufs[f][pos:pos + len(data)] = data
+    for f, pos, data in log[:k]:
+        put(f, pos, data)
+    if j and k < len(log):
+        f, pos, data = log[k]
+        if pos >= len(bufs[f]):                              # only an append can be torn
+            put(f, pos, data[:j])
+    return bytes(bufs[0]), bytes(bufs[1])
+
+
 def _topen(path, mode="r", *a, **k):
-    if IN_CLEAR[0] and "w" in mode:
-        name = os.path.basename(str(path))
-        kind = 4 if name == "lru_trie.dat" else 5 if name == "link_store.dat" else None
-        if kind is not None:
-            e = (kind, 0, b"")
-            WRITE_LOG.append(e); FULL_LOG.append(e)
+    name = os.path.basename(str(path))
+    which = 0 if name == "lru_trie.dat" else 1 if name == "link_store.dat" else None
+    if IN_CLEAR[0] and "w" in mode and which is not None:
+        e = (4 + which, 0, b"")
+        WRITE_LOG.append(e); FULL_LOG.append(e)
+        if PHYS_ACTIVE[0]:
+            PHYS_LOG.append((which, -1, b""))
+    if which is not None and "+" in mode and "b" in mode and not a and not k:
+        return LoggedFile(path, mode, which)
     return _builtins.open(path, mode, *a, **k)
 
 
@@ -412,15 +500,15 @@ class Impl(object):
             return "err other Timeout", 0, FNV_INIT          # an earlier call of this session never returned
         self.poisoned = False
         self.n_exec = getattr(self, "n_exec", 0) + 1
-        if BYSTANDER and self.n_exec % 3 == 0 and not line.startswith(("co ", "cut", "uncut")):
-            saved = list(WRITE_LOG), list(FULL_LOG)
+        if BYSTANDER and self.n_exec % 3 == 0 and not line.startswith(("co ", "cut", "uncut")):  # "cut" covers "cutp"
+            saved = list(WRITE_LOG), list(FULL_LOG), list(PHYS_LOG)
             texts = []
             for tok in re.findall(r"[xsb]((?:[0-9a-f]{2})+)", line):
                 v = as_api_arg(bytes.fromhex(tok))
                 if isinstance(v, str) and not v.isascii() and v not in texts:
                     texts.append(v)
             self.bystander(texts)
-            WRITE_LOG[:], FULL_LOG[:] = saved
+            WRITE_LOG[:], FULL_LOG[:], PHYS_LOG[:] = saved
         signal.signal(signal.SIGALRM, _on_alarm)
         signal.setitimer(signal.ITIMER_REAL, OP_TIMEOUT)
         try:
@@ -447,11 +535,13 @@ class Impl(object):
             _KW_CALLS[0] = 0
             _SHAPE_CALLS[0] = 0
             _STYLE[0] = 0
+            _DFLT_CALLS[0] = 0
             del FULL_LOG[:]
+            del PHYS_LOG[:]
             self.backend, _, enc = w[1].partition(":")          # `file:latin-1`: the constructor's `encoding=` (the model reads bytes)
             self.enc = enc or None
             SESSION_ENCODING[0] = enc or "utf-8"
-            self.dflt = RULES[w[2]]
+            self.dflt = default_rule(w[2])
             self.rules = parse_rules(w[3])
             if self.backend == "file":
                 self.folder = tempfile.mkdtemp(dir=self.scratch)
@@ -464,7 +554,7 @@ class Impl(object):
         if op == "reopen":
             assert self.backend == "file"
             self.close()
-            self.dflt = RULES[w[1]]
+            self.dflt = default_rule(w[1])
             self.rules = parse_rules(w[2])
             self.t = self.construct(self.folder)
             return "ok"
@@ -472,12 +562,13 @@ class Impl(object):
             # close, then construct again on the same folder (or in memory) with overwrite=True: a fresh index
             self.close()
             del FULL_LOG[:]
-            self.dflt = RULES[w[1]]
+            del PHYS_LOG[:]
+            self.dflt = default_rule(w[1])
             self.rules = parse_rules(w[2])
             self.t = self.construct(self.folder, overwrite=True)
             return "ok"
         if op == "clear":
-            d = None if w[1] == "-" else RULES[w[1]]
+            d = None if w[1] == "-" else default_rule(w[1], first=self.n_exec % 2 == 0)
             rs = None if w[2] == "none" else parse_rules(w[2])
             IN_CLEAR[0] = True
             try:
@@ -537,6 +628,11 @@ class Impl(object):
             return self._co(w[1:])
         if op == "cut":
             return self._cut(int(w[1]), int(w[2]))
+        if op == "fault":                # not a model operation: arm an I/O failure in the file object (extra_C14)
+            FAULT[0] = [int(w[1]), int(w[2])]
+            return "ok"
+        if op == "cutp":                 # a cut of the physical write log (not a model operation)
+            return self._cut(int(w[1]), int(w[2]), phys=self.phys_snapshot)
         if op == "uncut":
             return self._uncut()
         if op == "loglen":
@@ -635,9 +731,9 @@ class Impl(object):
                 put(kind, off, data, j)
         return bytes(tb), bytes(lb)
 
-    def _cut(self, k, j):
+    def _cut(self, k, j, phys=None):
         assert self.backend == "file" and getattr(self, "saved", None) is None
-        tb, lb = self.cut_files(k, j)
+        tb, lb = self.cut_files(k, j) if phys is None else phys_cut_files(phys, k, j)
         folder = tempfile.mkdtemp(dir=self.scratch)
         with open(os.path.join(folder, "lru_trie.dat"), "wb") as f:
             f.write(tb)
